@@ -377,3 +377,33 @@ Proof.
   - intros P. destruct s as [g p lc ln fc]. cbn in *. subst p. unfold step. cbn. rewrite Q.
     destruct lc; eexists; split; reflexivity.
 Qed.
+
+(* ---------------------------------------------------------------- the order of the two halves of quit() *)
+Lemma step_o_true : forall sh scr s lab, step_o true sh scr s lab = step sh scr s lab.
+Proof.
+  intros sh scr [g p lc ln fc] lab. unfold step_o, step, exec_mop_o. cbn [sg pc lcode lnext fcode].
+  destruct lab; try reflexivity.
+  destruct p as [ | | | [|] | | [|? ?] | | ]; destruct lc; reflexivity.
+Qed.
+
+Lemma run_o_true : forall sh scr labs s, run_o true sh scr s labs = run sh scr s labs.
+Proof.
+  intros sh scr. induction labs as [|l r IH]; intros s; [reflexivity|]. cbn. rewrite step_o_true.
+  destruct (step sh scr s l); [apply IH|reflexivity].
+Qed.
+
+(* wake-up first, store last (any shape whose quit() wakes from a foreign thread): the loop thread
+   consumes the wake-up, re-tests quit_ (still clear) and blocks in the next poll before the foreign
+   thread stores the flag: quit() has returned, quit_ is set, every thread is blocked and only the
+   poll time-out can end loop() *)
+Definition wake_first_labels : list label := [TLoop; TLoop; TF 0; TLoop; TRead; TLoop; TLoop; TLoop; TLoop; TF 0].
+
+Lemma wake_first_witness : forall sh scr, qwake sh false = true ->
+  exists s, run_o false sh scr (init [] [] [[AQuit]]) wake_first_labels = Some s /\
+            quit (sg s) = true /\ quit_called (log (sg s)) = true /\ returned (log (sg s)) = false /\
+            quiescent s = true /\ looping (sg s) = true.
+Proof.
+  intros sh scr QW. eexists. split.
+  - cbn. rewrite QW. cbn. destruct (resets_on_entry sh); cbn; reflexivity.
+  - cbn. destruct (resets_on_entry sh); cbn; auto.
+Qed.
